@@ -94,9 +94,29 @@ def sqv_exec(binary, cmds, name, timeout=1200):
     seg = os.path.join(wd, name + '.seg')
     write_ndjson(sc, cmds)
     p = subprocess.run([binary, 'exec', sc, tr, seg], stdout=subprocess.DEVNULL, stderr=subprocess.PIPE, text=True, timeout=timeout)
-    shutil.rmtree(seg, ignore_errors=True)
+    pend = os.path.join(seg, 'segment.txt.pending')
     if p.returncode != 0:
-        raise ToolError('sqv exec %s failed: rc=%s %s' % (name, p.returncode, p.stderr[-2000:]))
+        # the code under test took the harness process down (stack overflow, abort): that is data - the run that was in
+        # flight becomes an event that did not complete, and the rest of the scenario is not executed
+        pe = None
+        if (p.returncode < 0 or p.returncode in (134, 139)) and os.path.exists(pend):
+            with open(pend) as f:
+                pe = json.load(f)
+            last_i = 0
+            with open(tr) as f:
+                for line in f:
+                    if line.strip():
+                        last_i = json.loads(line)['i']
+            if last_i != pe['i'] - 1:
+                pe = None
+        if pe is None:
+            shutil.rmtree(seg, ignore_errors=True)
+            raise ToolError('sqv exec %s failed: rc=%s %s' % (name, p.returncode, p.stderr[-2000:]))
+        pe['out'] = 'crash: harness process ended with status %d during this run: %s' % (p.returncode, p.stderr[-300:])
+        with open(tr, 'a') as f:
+            f.write(json.dumps(pe) + '\n')
+            f.write(json.dumps({'e': 'abort', 'why': 'crash', 'i': pe['i'] + 1}) + '\n')
+    shutil.rmtree(seg, ignore_errors=True)
     return tr
 
 
